@@ -528,3 +528,8 @@ func TestConcurrent(t *testing.T) {
 		Rule: "2..16 goroutines call the build-selected transform concurrently on different pseudo-random states (20..200 calls each) as the very first use of both routines in a fresh child process: every result must equal the result computed alone afterwards, and the child must finish within 60 s; all non-trivial; distinct by case",
 	})
 }
+
+// coverage-guided fuzzing over the structured state generator (thorough tier, hook build only)
+func FuzzGenStates(f *testing.F) {
+	h.FuzzSub(f, h.Sub[stateCase]{Prop: "C20", Name: "states-" + buildVariant, Gen: genState, Check: checkState})
+}
